@@ -1029,10 +1029,10 @@ End Refine.
 
 (* ---------- the registry model (also with one corrupted response) meets [loc_ok] ---------- *)
 Definition no_status_corruption (kor : option (N * corruption)) : Prop :=
-  match kor with Some (_, KStatus _) => False | _ => True end.
+  match kor with Some (_, KStatus _) | Some (_, KNameUnknown) => False | _ => True end.
 
 Lemma corrupt_keeps k r :
-  match k with KStatus _ => False | _ => True end ->
+  match k with KStatus _ | KNameUnknown => False | _ => True end ->
   r_status (corrupt k r) = r_status r /\ (r_loc (corrupt k r) = r_loc r \/ r_loc (corrupt k r) = None).
 Proof. destruct r, k; cbn; intro X; try contradiction; auto. Qed.
 
@@ -1063,7 +1063,7 @@ Proof.
   destruct (handle H (subj_of subject_of) main other p g q) as [g1 r]. cbn [snd] in *.
   destruct kor as [[k c]|]; [|exact Hh].
   destruct (n =? k); [|exact Hh].
-  assert (Hc : match c with KStatus _ => False | _ => True end) by (destruct c; auto).
+  assert (Hc : match c with KStatus _ | KNameUnknown => False | _ => True end) by (destruct c; auto).
   destruct (corrupt_keeps c r Hc) as [Es [El|El]]; rewrite Es, El; auto.
 Qed.
 
